@@ -1,9 +1,11 @@
 (* C08 — correspondence evaluator: runs the model on a recorded history and
    compares every read path with what the implementation returned.
    Rows are flattened lists of integers (V := list Z).  Definitions only. *)
+From Coq Require Import String.
 From Coq Require Import ZArith List Bool Arith.
 Import ListNotations.
-From FV.C08 Require Import Table Model.
+From FV.C08 Require Import Table Model ElemModel.
+From FV.C08.gen Require Import ElemTypes.
 
 Definition row := list Z.
 
@@ -101,35 +103,60 @@ Definition check_case (c : cfg) (l : list Z) (rows : list row) (gen tsf : bool)
   | _, _ => [98%nat]
   end.
 
-(* ---- element collections ---- *)
+(* ---- element collections ----
+   The dict {type name -> block} is handed over as the caller wrote it
+   (insertion order, string keys, invalid keys included), followed by the dicts
+   passed to .update(); the table of type names is gen/ElemTypes.v.  Every
+   type the implementation reports is compared by *name*. *)
 Record eobs := {
-  e_ids : list Z; e_types : list nat; e_data : list row; e_id2index : list (Z * nat);
+  e_raised : bool;                          (* constructor / update raised *)
+  e_ids : list Z; e_types : list string; e_data : list row; e_id2index : list (Z * nat);
+  e_ids_types : list (Z * string);          (* ids_types: index, value *)
+  e_dti : list (string * list Z);           (* dict_type_ids, in the order of the dict *)
+  e_keys : list string;                     (* keys() *)
   e_q : list Z;
-  e_filter : list (nat * table row);       (* blocks of filter_with_ids(q) *)
-  e_fids : list Z; e_ftypes : list nat; e_fdata : list row;  (* its summary *)
+  e_filter : list (string * table row);     (* items() of filter_with_ids(q) *)
+  e_fids : list Z; e_ftypes : list string; e_fdata : list row;  (* its summary *)
   e_g : table row;                          (* ids, data handed to generate_elemental_attribute *)
-  e_gen : list (nat * table row)            (* blocks it returned *)
+  e_gen : list (string * table row)         (* items() of what it returned *)
 }.
 
 Definition pair_eqb (a b : Z * nat) := Z.eqb (fst a) (fst b) && Nat.eqb (snd a) (snd b).
-Definition block_eqb (a b : nat * table row) := Nat.eqb (fst a) (fst b) && table_eqb (snd a) (snd b).
+Definition nblock_eqb (a b : string * table row) := String.eqb (fst a) (fst b) && table_eqb (snd a) (snd b).
+Definition strs_eqb := list_eqb' String.eqb.
 
-Definition check_summary (bs : @blocks row) (o : eobs) : list nat :=
-  match update_self bs with
-  | None => [98%nat]
-  | Some s =>
-      (if zs_eqb (s_ids s) (e_ids o) then [] else [1%nat]) ++
-      (if nats_eqb (s_types s) (e_types o) then [] else [2%nat]) ++
-      (if rows_eqb (s_data s) (e_data o) then [] else [3%nat]) ++
-      (if list_eqb' pair_eqb (s_id2index s) (e_id2index o) then [] else [4%nat]) ++
-      (if list_eqb' block_eqb (egenerate bs (e_g o)) (e_gen o) then [] else [9%nat]) ++
+Definition empty_eobs (o : eobs) : bool :=
+  match e_ids o, e_types o, e_data o, e_keys o with [], [], [], [] => true | _, _, _, _ => false end.
+
+Definition check_summary (d0 : @edict row) (upds : list (@edict row)) (o : eobs) : list nat :=
+  match build element_types d0 upds with
+  | None => if e_raised o then [] else [90%nat]
+  | Some d =>
+    if e_raised o then [90%nat] else
+    let bs := to_blocks element_types d in
+    match update_self_named element_types d, update_self bs with
+    | Some s, Some _ =>
+      (if zs_eqb (n_ids s) (e_ids o) then [] else [1%nat]) ++
+      (if strs_eqb (n_types s) (e_types o) then [] else [2%nat]) ++
+      (if rows_eqb (n_data s) (e_data o) then [] else [3%nat]) ++
+      (if list_eqb' pair_eqb (n_id2index s) (e_id2index o) then [] else [4%nat]) ++
+      (if list_eqb' (fun a b => Z.eqb (fst a) (fst b) && String.eqb (snd a) (snd b))
+            (combine (n_ids s) (n_types s)) (e_ids_types o) then [] else [10%nat]) ++
+      (if list_eqb' (fun a b => String.eqb (fst a) (fst b) && zs_eqb (snd a) (snd b))
+            (dict_type_ids element_types d) (e_dti o) then [] else [11%nat]) ++
+      (if strs_eqb (keys element_types d) (e_keys o) then [] else [12%nat]) ++
+      (if list_eqb' nblock_eqb (name_blocks element_types (egenerate bs (e_g o))) (e_gen o)
+       then [] else [9%nat]) ++
       (let fb := efilter bs (e_q o) in
-       (if list_eqb' block_eqb fb (e_filter o) then [] else [5%nat]) ++
+       (if list_eqb' nblock_eqb (name_blocks element_types fb) (e_filter o) then [] else [5%nat]) ++
        match update_self fb with
        | None => [97%nat]
-       | Some fs =>
-           (if zs_eqb (s_ids fs) (e_fids o) then [] else [6%nat]) ++
-           (if nats_eqb (s_types fs) (e_ftypes o) then [] else [7%nat]) ++
-           (if rows_eqb (s_data fs) (e_fdata o) then [] else [8%nat])
+       | Some fs0 =>
+           let fs := name_summary element_types fs0 in
+           (if zs_eqb (n_ids fs) (e_fids o) then [] else [6%nat]) ++
+           (if strs_eqb (n_types fs) (e_ftypes o) then [] else [7%nat]) ++
+           (if rows_eqb (n_data fs) (e_fdata o) then [] else [8%nat])
        end)
+    | _, _ => [98%nat]
+    end
   end.
